@@ -1214,6 +1214,11 @@ func c09RandomWorld(rng *rand.Rand) (c09WorldIn, int) {
 		Sigs: sigs(vset, all(vset), nil), Last: "R" + strconv.Itoa(vh-1), Wf: false}
 	in.Blocks["G"] = c09Block{ID: "G", Hid: "G", H: int64(vh), T: int64(10*vh - 1), Vh: "X", Nvh: "X", Vsh: "X",
 		Sigs: sigs(in.VSets["X"], all(in.VSets["X"]), nil), Last: "R" + strconv.Itoa(vh-1), Wf: true}
+	// a forged header at the top height whose only validator (v9) is in no set of the chain:
+	// it can never reach the trust level of any trusted set
+	mkset("Zs", []string{"v9"}, []int64{1})
+	in.Blocks["Z"] = c09Block{ID: "Z", Hid: "Z", H: int64(H), T: int64(10*H + 5), Vh: "Zs", Nvh: "Zs", Vsh: "Zs",
+		Sigs: sigs(in.VSets["Zs"], all(in.VSets["Zs"]), nil), Last: "R" + strconv.Itoa(H-1), Wf: true}
 	return in, H
 }
 
@@ -1227,9 +1232,17 @@ func c09RandomRun(rng *rand.Rand, in c09WorldIn, H int) c09Run {
 		return t
 	}
 	at := func(id string) int { return int(in.Blocks[id].H) }
+	root := 1 + rng.Intn(H)
+	if rng.Intn(2) == 0 {
+		root = 1
+	}
+	holeTarget := false
 	persona := func(primary bool) [][]string {
 		t := honest()
 		k := rng.Intn(15)
+		if primary && rng.Intn(8) == 0 {
+			k = 15
+		}
 		if !primary && rng.Intn(3) == 0 {
 			k = 0
 		}
@@ -1309,6 +1322,19 @@ func c09RandomRun(rng *rand.Rand, in c09WorldIn, H int) c09Run {
 			}
 			id := []string{"Rx", "S"}[rng.Intn(2)]
 			t[at(id)] = []string{id}
+		case 15: // untrustable forged target, honest first pivot, nothing at the following pivots
+			tgt := H
+			p1 := root + (tgt-root)*9/16
+			if tgt-root < 2 {
+				break
+			}
+			t[tgt] = []string{"Z"}
+			t[0] = []string{"Z"}
+			kind := []string{"NotFound", "NoResponse", "TooHigh"}[rng.Intn(3)]
+			for h := p1 + 1; h < tgt; h++ {
+				t[h] = []string{kind}
+			}
+			holeTarget = true
 		case 13: // fork with holes
 			for h := 1; h <= H; h++ {
 				if _, ok := in.Blocks["L"+strconv.Itoa(h)]; ok {
@@ -1336,9 +1362,9 @@ func c09RandomRun(rng *rand.Rand, in c09WorldIn, H int) c09Run {
 	if rng.Intn(5) == 0 {
 		r.Cfg.Num, r.Cfg.Den = 2, 3
 	}
-	r.Root = int64(1 + rng.Intn(H))
-	if rng.Intn(2) == 0 {
-		r.Root = 1
+	r.Root = int64(root)
+	if holeTarget {
+		r.Cfg.Mode = "skip"
 	}
 	r.RootHid = "R" + strconv.Itoa(int(r.Root))
 	perm := func() []string {
@@ -1348,6 +1374,22 @@ func c09RandomRun(rng *rand.Rand, in c09WorldIn, H int) c09Run {
 	}
 	r.StartSched = perm()
 	now := int64(10*int(r.Root) + 1 + rng.Intn(30))
+	if holeTarget {
+		// the target must be neither from the future nor beyond the trusting period
+		now = int64(10*H + 6)
+		if now >= int64(10*int(r.Root))+r.Cfg.Period {
+			r.Cfg.Period = now - int64(10*int(r.Root)) + 20
+		}
+		op := "Verify"
+		if rng.Intn(3) == 0 {
+			op = "Update"
+		}
+		hh := int64(H)
+		if op == "Update" {
+			hh = 0
+		}
+		r.Steps = append(r.Steps, c09Step{Op: op, H: hh, Now: now, Sched: perm()})
+	}
 	for k := 0; k < 1+rng.Intn(3); k++ {
 		if rng.Intn(3) == 0 {
 			now += int64(rng.Intn(60))
